@@ -238,11 +238,16 @@ structure Wired (m : Message) : Prop where
   cb : SecCanon m.body
   ct : SecCanon m.trailer
 
-theorem build_wire (m : Message) (hb : Built m) (hc : Wired m) (tv8 : TagValue) (f35 : Field)
+/-- the structure of the TagValue list of a built message: BeginString, BodyLength, MsgType, the remaining header TagValues
+    (each from a field of the header), the body's TagValues, the trailer's (each from a field of the trailer), CheckSum -/
+theorem build_wire' (m : Message) (hb : Built m) (hc : Wired m) (tv8 : TagValue) (f35 : Field)
     (h8 : alFind m.header.lookup 8 = some (.owned [tv8])) (h35 : alFind m.header.lookup 35 = some f35)
     (bytes : Bytes) (m' : Message) (h : m.build Fixes.cur = .ok (bytes, m')) (hsmall : bytes.length < 9223372036854775808) :
-    ∃ t9 t35 pre t10, bytes = wireOf (tv8 :: t9 :: t35 :: (pre ++ [t10])) ∧ WireMsg tv8 t9 t35 pre t10 ∧
-      atoi t9.value = .ok ((fieldsLength (tv8 :: t9 :: t35 :: (pre ++ [t10])) : Nat) : Int) := by
+    ∃ t9 t35 restH frontT t10, bytes = wireOf (tv8 :: t9 :: t35 :: ((restH ++ m.body.tvs m.fields ++ frontT) ++ [t10])) ∧
+      WireMsg tv8 t9 t35 (restH ++ m.body.tvs m.fields ++ frontT) t10 ∧
+      atoi t9.value = .ok ((fieldsLength (tv8 :: t9 :: t35 :: ((restH ++ m.body.tvs m.fields ++ frontT) ++ [t10])) : Nat) : Int) ∧
+      (∀ tv ∈ t35 :: restH, ∃ k f, alFind m.header.lookup k = some f ∧ tv ∈ f.items m.fields) ∧
+      (∀ tv ∈ frontT, ∃ k f, alFind m.trailer.lookup k = some f ∧ tv ∈ f.items m.fields ∧ k ≠ 10) := by
   obtain ⟨C, iH, iT, pH, pT, hbytes⟩ := build_cooked m hb bytes m' h
   generalize hN : m.header.length m.fields + m.body.length m.fields + m.trailer.length m.fields = N at iH pH hbytes
   have c9 : CanonTV (TagValue.init 9 (fmtInt (N : Int))) :=
@@ -275,7 +280,7 @@ theorem build_wire (m : Message) (hb : Built m) (hc : Wired m) (tv8 : TagValue) 
   have t8tag : tv8.tag = 8 := by
     obtain ⟨tv, rest, hl, ht⟩ := hb.ph.head 8 _ h8
     injection hl with a b; subst a; exact ht
-  refine ⟨_, t35, restH ++ m.body.tvs m.fields ++ frontT, _, hL, ?_, ?_⟩
+  refine ⟨_, t35, restH, frontT, _, hL, ?_, ?_, ?_, ?_⟩
   · refine ⟨canonTV_isWire _ (allH tv8 (by simp)).1, canonTV_isWire _ c9, canonTV_isWire _ (allH t35 (by simp)).1, ?_,
       canonTV_isWire _ c10, t8tag, rfl, ht35, rfl, ?_⟩
     · intro tv htv
@@ -308,7 +313,42 @@ theorem build_wire (m : Message) (hb : Built m) (hc : Wired m) (tv8 : TagValue) 
     have e9 : atoi (fmtInt (N : Int)) = .ok (N : Int) := by rw [fmtInt_ofNat]; exact atoi_fmtNat N hNs
     show atoi (fmtInt (N : Int)) = _
     rw [e9, ← hNL]
+  · -- provenance of the remaining header TagValues
+    intro tv htv
+    have hmem : tv ∈ (m.header.put 9 (.owned [TagValue.init 9 (fmtInt (N : Int))])).tvs m.fields := by
+      rw [eH]; simp only [List.mem_cons] at htv ⊢; rcases htv with e | e
+      · exact Or.inr (Or.inr (Or.inl e))
+      · exact Or.inr (Or.inr (Or.inr e))
+    obtain ⟨k, f, hf, hm⟩ := mem_tvs _ _ tv hmem
+    by_cases e : k = 9
+    · subst e
+      rw [put_find_self] at hf; injection hf with hf; subst hf
+      simp only [Field.items, List.mem_singleton] at hm
+      have t9 : tv.tag = 9 := by rw [hm]; rfl
+      rcases List.mem_cons.1 htv with e | e
+      · rw [e, ht35] at t9; exact absurd t9 (by decide)
+      · exact absurd (Or.inr (Or.inl t9)) (clH tv e)
+    · rw [put_find_other _ _ _ _ e] at hf; exact ⟨k, f, hf, hm⟩
+  · -- provenance of the trailer TagValues before CheckSum
+    intro tv htv
+    have hmem : tv ∈ (m.trailer.put 10 (.owned [TagValue.init 10 (digitsW 3 C)])).tvs m.fields := by
+      rw [eT]; simp [htv]
+    obtain ⟨k, f, hf, hm⟩ := mem_tvs _ _ tv hmem
+    by_cases e : k = 10
+    · subst e
+      rw [put_find_self] at hf; injection hf with hf; subst hf
+      simp only [Field.items, List.mem_singleton] at hm
+      have t10 : tv.tag = 10 := by rw [hm]; rfl
+      exact absurd (Or.inr (Or.inr t10)) (clT tv htv)
+    · rw [put_find_other _ _ _ _ e] at hf; exact ⟨k, f, hf, hm, e⟩
 
+theorem build_wire (m : Message) (hb : Built m) (hc : Wired m) (tv8 : TagValue) (f35 : Field)
+    (h8 : alFind m.header.lookup 8 = some (.owned [tv8])) (h35 : alFind m.header.lookup 35 = some f35)
+    (bytes : Bytes) (m' : Message) (h : m.build Fixes.cur = .ok (bytes, m')) (hsmall : bytes.length < 9223372036854775808) :
+    ∃ t9 t35 pre t10, bytes = wireOf (tv8 :: t9 :: t35 :: (pre ++ [t10])) ∧ WireMsg tv8 t9 t35 pre t10 ∧
+      atoi t9.value = .ok ((fieldsLength (tv8 :: t9 :: t35 :: (pre ++ [t10])) : Nat) : Int) := by
+  obtain ⟨t9, t35, restH, frontT, t10, h1, h2, h3, _, _⟩ := build_wire' m hb hc tv8 f35 h8 h35 bytes m' h hsmall
+  exact ⟨t9, t35, _, t10, h1, h2, h3⟩
 
 /-! ## `Wired` is an invariant of operations with int64 tags (not XMLDataLen) and SOH-free values -/
 
